@@ -673,3 +673,33 @@ def validate_streams(ctx, cases, mode, tag, sig_prefix=None, timeout=3000, alter
                       % (oid, cl, at, name, json.dumps(got)[:300], ' error=%s' % (ex.error,) if ex.error else ''),
                       {'kind': 'code->spec', 'clause': clause, 'mode': mode, 'stream': describe(w, stream, k)})
     return execs
+
+
+def long_windows(ctx, prop, report_lost, report_raised):
+    """SCALE: an operation whose START and END are as many records apart as a size-like constant of the parser's sources
+    suggests (one less, exactly, one more ...).  C07 pins that nothing raises; C04 that the trace comes out with every
+    record of the window."""
+    from .encode import make_event
+    from pykdebugparser.traces_parser import TracesParser
+    from . import mine
+    codes_ = default_codes()
+    n2i = {n: i for i, n in codes_.items() if i & 3 == 0}
+    nlong = 0
+    for h in mine.size_hints(256):
+        for n_ in (h - 2, h - 1, h, h + 1, h + 2):
+            p_ = TracesParser(codes_, {}, {})
+            inert = [make_event(7, n2i['TRACE_INFO_STRING'], 9, (1, 2, 3, 4)), make_event(7, n2i['BSC_getpid'] | 3, 9, (0, 0, 0, 0))]
+            nlong += 1
+            try:
+                p_.feed(make_event(5, n2i['BSC_read'] | 1, 9, (3, 4, 5, 6)))
+                for k_ in range(n_ - 1):                      # n_ records in the window: START, n_ - 2 inner ones ..., END
+                    p_.feed(inert[k_ & 1])
+                r = p_.feed(make_event(9, n2i['BSC_read'] | 2, 9, (0, 5, 0, 0)))
+                if report_lost and (r is None or len(r.ktraces) != n_ + 1):
+                    ctx.violation('%s/long-window-lost' % prop, 'read() with %d records of its thread before its END: %s'
+                                  % (n_ - 1, 'no trace' if r is None else 'window of %d records' % len(r.ktraces)), {'kind': 'code->spec', 'stream': []})
+            except Exception as ex:
+                if report_raised:
+                    ctx.violation('%s/long-window-raised@%s' % (prop, type(ex).__name__), 'read() with %d records of its thread before its END raised %r'
+                                  % (n_ - 1, ex), {'kind': 'code->spec', 'stream': []})
+    ctx.extra['long_windows'] = nlong
